@@ -116,6 +116,7 @@ type executor struct {
 	groups  map[int]*mux.Group[*H]
 	ctxs    map[int]*types.Context
 	scripts map[int][]act
+	mwScripts map[int][]act // middlewares that write response headers at request time (op mw-script)
 	pHandlers, pMws, pBases map[int]int
 	cur     *obs
 	curRec  *rec
@@ -127,7 +128,7 @@ type executor struct {
 func newExecutor() *executor {
 	return &executor{
 		routers: map[int]*mux.Router[*H]{}, facades: map[int]*facadeSt{}, facadeRouter: map[int]*mux.Router[*H]{}, hosts: map[int]*mux.Hosts{},
-		groups: map[int]*mux.Group[*H]{}, ctxs: map[int]*types.Context{}, scripts: map[int][]act{},
+		groups: map[int]*mux.Group[*H]{}, ctxs: map[int]*types.Context{}, scripts: map[int][]act{}, mwScripts: map[int][]act{},
 		pHandlers: map[int]int{}, pMws: map[int]int{}, pBases: map[int]int{},
 	}
 }
@@ -269,6 +270,9 @@ func (x *executor) call(w http.ResponseWriter, r *http.Request, route types.Rout
 	}
 	// request time: middlewares outermost first, then the handler itself
 	for i := len(wraps) - 1; i >= 0; i-- {
+		if acts, ok := x.mwScripts[wraps[i].mw]; ok {
+			runScript(w, acts)
+		}
 		if v, ok := x.pMws[wraps[i].mw]; ok {
 			o.raised = true
 			panic(panicValue(v))
@@ -963,6 +967,20 @@ func (x *executor) step(line string) string {
 			x.routers[atoi(t[2])] = g.New(decB(t[3]), x.parseMatcher(t[4]))
 			return "ok"
 		})
+	case t[0] == "group-new" && len(t) == 6: // Group.New with options of its own (interceptors) on top of the group's
+		g := x.groups[atoi(t[1])]
+		if g == nil {
+			return "bad-op"
+		}
+		return protectGroup(func() string {
+			var o []mux.Option
+			for _, e := range decM(t[5]) {
+				id, _ := strconv.Atoi(e.v)
+				o = append(o, icptOption(e.k, id))
+			}
+			x.routers[atoi(t[2])] = g.New(decB(t[3]), x.parseMatcher(t[4]), o...)
+			return "ok"
+		})
 	case t[0] == "group-use" && len(t) == 3:
 		g := x.groups[atoi(t[1])]
 		if g == nil {
@@ -1026,6 +1044,13 @@ func (x *executor) step(line string) string {
 			return "bad-op"
 		}
 		return x.serve(g, mkRequest(t[2], t[3], t[4], t[5]))
+	case t[0] == "mw-script" && len(t) == 3:
+		if t[2] == "%-" {
+			delete(x.mwScripts, atoi(t[1]))
+		} else {
+			x.mwScripts[atoi(t[1])] = decActs(t[2])
+		}
+		return "ok"
 	case t[0] == "script" && len(t) == 3:
 		x.scripts[atoi(t[1])] = decActs(t[2])
 		return "ok"
